@@ -1164,6 +1164,13 @@ answer); distinct by case hash."
     run_programs(ctx);
     run_ctors(ctx);
     run_preds(ctx);
+    // coverage-guided campaign (libFuzzer, ASan) over the same decoder and oracle: thorough tier only
+    if !ctx.quick() {
+        crate::engine::fuzzdrv::run(
+            ctx,
+            crate::engine::fuzzdrv::Campaign { target: "c15", runs_per_job: 60000, jobs: 8, max_len: 400, seeds: vec![vec![0, 2, 3, 4, 5, 6, 1, 1, 2, 3, 9, 9, 9, 2, 0, 0, 7, 1, 2, 3], (0u8..120).collect::<Vec<u8>>(), vec![5, 200, 17, 5, 33, 6, 8, 250, 4, 4, 12, 0, 1, 2, 3, 4, 5, 6, 7, 8, 9, 10]] },
+        );
+    }
 }
 
 pub fn replay(ctx: &mut Ctx, sub: &str, v: Value) -> Option<R> {
